@@ -191,7 +191,7 @@ func runC04(r *mc.Run) {
 			ti.TcbLevels = append(ti.TcbLevels, c04Level(p, q.tee, 1, "OutOfDate"))
 		}
 		// dates of the levels: the listed order decides, whatever the dates say
-		c04Dates(ti.TcbLevels, c.Choose("level-dates", 3))
+		c04Dates(ti.TcbLevels, c.Choose("level-dates", 5))
 		// TDX module identities
 		mod := c.Choose("module", 3)
 		misv := c.Choose("module.isvsvn", 3)
@@ -210,7 +210,7 @@ func runC04(r *mc.Run) {
 		case 4: // "tcbLevels": null
 			mlevels = nil
 		}
-		c04Dates(mlevels, c.Choose("module.level-dates", 3))
+		c04Dates(mlevels, c.Choose("module.level-dates", 5))
 		ms := strings.Repeat("00", 48)
 		switch mod {
 		case 0:
@@ -513,6 +513,10 @@ func c04Dates(ls []world.Level, mode int) {
 			ls[i].TcbDate = fmt.Sprintf("20%02d-03-01T00:00:00Z", 20+i)
 		case 2:
 			ls[i].TcbDate = fmt.Sprintf("20%02d-03-01T00:00:00Z", 29-i)
+		case 3: // the first listed levels are dated after the verification time (2030), later ones before it
+			ls[i].TcbDate = fmt.Sprintf("20%02d-03-01T00:00:00Z", 33-2*i)
+		case 4: // every level dated after the verification time
+			ls[i].TcbDate = fmt.Sprintf("20%02d-03-01T00:00:00Z", 40+i)
 		}
 	}
 }
